@@ -193,8 +193,11 @@ pub fn projset(p: PsParams) -> impl Strategy<Value = ProjSet> {
                             0 | 1 => (i, None),
                             2 => {
                                 let d = (*pj as usize / 4) % n;
-                                if p.broken_refs && *flags >= 232 && *flags < 240 {
+                                if p.broken_refs && *flags >= 232 && *flags < 236 {
                                     (d, Some("nowhere".to_string()))
+                                } else if p.broken_refs && *flags >= 236 && *flags < 240 {
+                                    // one `::` too many: addresses a project through another one
+                                    (d, Some(format!("{}::sub", names[d].clone().unwrap_or_else(|| "nowhere".to_string()))))
                                 } else if names[d].is_some() {
                                     (d, names[d].clone())
                                 } else {
